@@ -22,3 +22,6 @@ pub assume_specification<T>[std::mem::replace](dest: &mut T, src: T) -> (r: T)
     ensures r == *old(dest), *final(dest) == src;
 #[verifier::external_body]
 pub fn vx_unreached<T>() -> T requires false { unimplemented!() }
+pub assume_specification<T, F: FnOnce(T) -> bool>[Option::<T>::is_some_and](o: Option<T>, f: F) -> (r: bool)
+    requires o is Some ==> f.requires((o->Some_0,)),
+    ensures o is None ==> !r, o is Some ==> f.ensures((o->Some_0,), r);
